@@ -119,7 +119,11 @@ func c19schedules(ctx *vc.Ctx) {
 		cfgs = append(cfgs, cfg{"3x2/init0", 3, 0}, cfg{"3x2/init4", 3, 4})
 	}
 	for _, cf := range cfgs {
-		progs := c19progs(alpha, 2)
+		al := alpha
+		if cf.threads == 3 {
+			al = alpha[:3] // 3 threads: the 3-operation alphabet keeps the thorough tier at minutes
+		}
+		progs := c19progs(al, 2)
 		// all assignments of programs to threads (ordered; symmetric duplicates kept small by requiring non-decreasing index)
 		var combos [][]int
 		var rec func(start int, cur []int)
